@@ -56,6 +56,25 @@ pub fn intern(name: &str) -> u8 {
         "secs" => 18, "nanos" => 19, "Duration" => 20, _ => 255,
     }
 }
+/// Names outside the fixed table (used by the glue crate for macro-generated enums): interned at
+/// run time into a small table; ids start at 32.
+pub static mut EXTRA: [&'static str; 12] = [""; 12];
+pub static mut NEXTRA: usize = 0;
+pub fn intern_dyn(name: &'static str) -> u8 {
+    let fixed = intern(name);
+    if fixed != 255 { return fixed; }
+    let mut i = 0;
+    unsafe {
+        while i < NEXTRA { if str_eq(EXTRA[i], name) { return 32 + i as u8; } i += 1; }
+        if NEXTRA >= EXTRA.len() { return 255; }
+        EXTRA[NEXTRA] = name;
+        NEXTRA += 1;
+        32 + (NEXTRA - 1) as u8
+    }
+}
+pub fn name_of(id: u8) -> &'static str {
+    if (id as usize) < NAMES.len() { NAMES[id as usize] } else { unsafe { EXTRA[(id - 32) as usize] } }
+}
 #[derive(Clone, Copy)]
 pub struct Tok { pub k: u8, pub w: u8, pub s: u8, pub v: u64 }
 /// <= 64: CBMC's field sensitivity stops at arrays of 64 elements (larger: array theory, 15x slower).
@@ -66,13 +85,15 @@ pub struct Wire { pub t: [Tok; N], pub n: usize, pub r: usize, pub mode: Mode,
                   /// JSON only: the peer writes 3-field structs (trace::Context) as arrays, which
                   /// serde_json accepts for any struct.  Keeps the derived `visit_map` of the inner
                   /// struct (the expensive part under CBMC) out of a harness that is about the outer one.
-                  pub inner_structs_as_arrays: bool }
+                  pub inner_structs_as_arrays: bool,
+                  /// accept names outside the fixed table (see intern_dyn)
+                  pub dynamic_names: bool }
 const NONE: Tok = Tok { k: EOF, w: 0, s: 0, v: 0 };
 impl Wire {
-    pub fn new(mode: Mode) -> Self { Wire { t: [NONE; N], n: 0, r: 0, mode, skip_field: "", inner_structs_as_arrays: false } }
+    pub fn new(mode: Mode) -> Self { Wire { t: [NONE; N], n: 0, r: 0, mode, skip_field: "", inner_structs_as_arrays: false, dynamic_names: false } }
     fn put(&mut self, k: u8, w: u8, v: u64, s: &'static str) -> Result<(), E> {
         if self.n >= N { return Err(E); }
-        let id = if s.is_empty() { 0 } else { intern(s) };
+        let id = if s.is_empty() { 0 } else if self.dynamic_names { intern_dyn(s) } else { intern(s) };
         if id == 255 { return Err(E); }
         self.t[self.n] = Tok { k, w, s: id, v };
         self.n += 1;
@@ -218,7 +239,7 @@ impl<'de, 'a, 'b> de::Deserializer<'de> for &'b mut D<'a> {
     get_u!(deserialize_u8 visit_u8 u8, 8; deserialize_u16 visit_u16 u16, 16; deserialize_u32 visit_u32 u32, 32; deserialize_u64 visit_u64 u64, 64);
     get_i!(deserialize_i8 visit_i8 i8, 8; deserialize_i16 visit_i16 i16, 16; deserialize_i32 visit_i32 i32, 32; deserialize_i64 visit_i64 i64, 64);
     fn deserialize_bool<V: Visitor<'de>>(self, vis: V) -> Result<V::Value, E> { let t = self.0.get(); if t.k != BOOL { return Err(E); } vis.visit_bool(t.v != 0) }
-    fn deserialize_str<V: Visitor<'de>>(self, vis: V) -> Result<V::Value, E> { let t = self.0.get(); if t.k != STR { return Err(E); } vis.visit_str(NAMES[t.s as usize]) }
+    fn deserialize_str<V: Visitor<'de>>(self, vis: V) -> Result<V::Value, E> { let t = self.0.get(); if t.k != STR { return Err(E); } vis.visit_str(name_of(t.s)) }
     fn deserialize_string<V: Visitor<'de>>(self, vis: V) -> Result<V::Value, E> { self.deserialize_str(vis) }
     fn deserialize_identifier<V: Visitor<'de>>(self, vis: V) -> Result<V::Value, E> { self.deserialize_str(vis) }
     fn deserialize_option<V: Visitor<'de>>(self, vis: V) -> Result<V::Value, E> {
